@@ -1,6 +1,7 @@
 import PcVerif.Ops.Caption
 import PcVerif.Model.DfxpTime
 import PcVerif.Model.SamiTime
+import PcVerif.Model.SamiWriter
 namespace PcVerif.Ops
 open Proto
 
@@ -15,6 +16,20 @@ def xmlOps : List (String × Handler) := [
     | [ps] =>
       let l := decList (fun x => match x.splitOn ":" with | [m, t] => (decNat m, decBool t) | _ => (0, false)) ps
       encList (fun (p : Int × Int) => toString p.1 ++ ";" ++ toString p.2) (Sami.translateLang l)
+    | _ => "bad-args")
+]
+end PcVerif.Ops
+
+namespace PcVerif.Ops
+open Proto
+def decTimes (s : String) : List (Rat × Rat) :=
+  decList (fun x => match x.splitOn ";" with | [a, b] => (decRat a, decRat b) | _ => (0, 0)) s
+def encSync (s : SamiW.Sync) : String :=
+  toString s.start ++ ":" ++ (if s.ps.isEmpty then "_" else
+    String.intercalate " " (s.ps.map fun p => toString p.lang ++ "." ++ encBool p.blank ++ "." ++ toString p.cap))
+def samiWriterOps : List (String × Handler) := [
+  ("sami.plan", fun a => match a with
+    | [ls] => encList encSync (SamiW.plan (if ls = "[]" then [] else (ls.splitOn "|").map decTimes))
     | _ => "bad-args")
 ]
 end PcVerif.Ops
